@@ -98,7 +98,12 @@ class Report:
         r.failed += 1
         self._keys.add((rid, instance))
         if construct is None:
-            construct = ast.unparse(node) if node is not None else instance
+            if isinstance(node, (ast.FunctionDef, ast.AsyncFunctionDef)):
+                construct = f"def {node.name}"  # a whole-function anchor: the key must not change with unrelated edits of the body
+            elif isinstance(node, ast.ClassDef):
+                construct = f"class {node.name}"
+            else:
+                construct = ast.unparse(node) if node is not None else instance
         if len(construct) > 400:
             construct = construct[:400] + "..."
         v = Violation(
